@@ -24,6 +24,9 @@ def run(ctx):
     magg, mviol, msamples, mlost = shm.run_miri(ctx, "c03", 16 if q else 256, 20)
     ctx.log("miri c03: %s lost %d" % (magg, mlost))
     viol += shm.miri_violations_for(ctx, mviol, "C03")
+    pagg, pviol = shm.run_proc(ctx, 8 if q else 120)
+    ctx.log("proc: %s" % pagg)
+    viol += [v for v in pviol if v["sig"] in ("proc-went-backwards", "proc-stale-at-quiescence", "reader-crashed", "reader-died", "reader-hung")]
     inconclusive = None
     if cov["idle_calls"] < 1000 or lng["exception_cases"] < 1 or lng["wrap_crossings"] < 1 or magg["idle_calls"] < 20:
         inconclusive = "monitors observed too little (idle calls %d, exception cases %d, wrap crossings %d, miri idle calls %d)" % (
@@ -40,6 +43,7 @@ def run(ctx):
         "sched": cov,
         "long_histories": lng,
         "miri": dict(magg, processes_lost=mlost),
+        "proc": pagg,
     }
     finish(ctx, coverage, viol, inconclusive, assumptions=["publication records are keyed by index so order is a comparison of integers",
                                                           "Miri catch-up mode: the harness' S/P counters are SeqCst atomics (gives the reader happens-before from completed publications only)"])
